@@ -2,6 +2,7 @@
 #include "rt_common.h"
 #include <pika/latch.hpp>
 #include <pika/barrier.hpp>
+#include <chrono>
 #include <pika/synchronization/event.hpp>
 #include <pika/synchronization/once.hpp>
 #include <thread>
@@ -72,15 +73,16 @@ struct BarState { int arrive[4]; int depart[4]; int completions; int expected[4]
 static BarState* g_bar;
 // PHASE0: value of the phase byte the barrier starts from (the byte advances by 2 per phase and wraps at
 // 256: starting from 252 makes phases 0..2 cross the wrap-around, which would otherwise need 128 phases)
-template <int P, int PHASES, bool OS, int PHASE0 = 0>
+template <int P, int PHASES, bool OS, int PHASE0 = 0, int NFORMS = 2>
 static void barrier_prog()
 {
     static BarState b;
     b = BarState{};
     g_bar = &b;
     int form[P];
-    for (int p = 0; p < P; ++p) form[p] = pmc_choose(2, 0);    // 0 arrive_and_wait, 1 arrive + wait(token)
+    for (int p = 0; p < P; ++p) form[p] = pmc_choose(NFORMS, 0);    // 0 arrive_and_wait, 1 arrive + wait(token), 2 arrive_and_wait(busy-wait timeout 100 us)
     int dropper = pmc_choose(P + 1, 0) - 1;                     // participant that drops in phase 0 (-1: nobody)
+    int late = (OS && NFORMS > 2) ? pmc_choose(2, 0) : 0;       // the last participant arrives 1 ms late: a busy-wait of 100 us expires first
     for (int k = 0; k < PHASES; ++k) b.expected[k] = (k == 0 || dropper < 0) ? P : P - 1;
     auto completion = [] { ++g_bar->completions; };
     auto& bar = *new pika::barrier<decltype(completion)>(P, completion);
@@ -92,9 +94,10 @@ static void barrier_prog()
     }
     pmc_watch(&bar, sizeof bar, "barrier");
     pmc_watch(bar.base.state.get(), sizeof(pika::detail::barrier_algorithm_base::state_t) * ((P + 1) >> 1), "tickets");
-    auto body = [&bar, dropper](int p, int f) {
+    auto body = [&bar, dropper, late](int p, int f) {
         for (int k = 0; k < PHASES; ++k)
         {
+            if (late && k == 0 && p == P - 1) usleep(1000);
             if (k == 0 && p == dropper)
             {
                 ++g_bar->arrive[0];
@@ -103,7 +106,8 @@ static void barrier_prog()
             }
             ++g_bar->arrive[k];
             if (f == 0) bar.arrive_and_wait();
-            else { auto tok = bar.arrive(); bar.wait(std::move(tok)); }
+            else if (f == 1) { auto tok = bar.arrive(); bar.wait(std::move(tok)); }
+            else bar.arrive_and_wait(std::chrono::duration<double>(1e-4));    // busy-wait first; must still not leave before the phase completed
             ++g_bar->depart[k];
             PMC_ASSERT(g_bar->arrive[k] == g_bar->expected[k], "barrier-early", "participant %d left phase %d after %d of %d arrivals", p, k, g_bar->arrive[k], g_bar->expected[k]);
             PMC_ASSERT(g_bar->completions >= k + 1, "barrier-completion-late", "participant %d left phase %d before its completion function ran (%d completions)", p, k, g_bar->completions);
@@ -218,9 +222,9 @@ int main(int argc, char** argv)
         {"event_os", event_prog<true>, 2, 3, 0.05, 0.05, 1, "event on plain OS threads", nullptr, nullptr},
         {"event_tasks", event_prog<false>, 2, 3, 0.1, 0.1, 1, "F-addr: event (event_, spinlock, cv queue) + task state words", nullptr, nullptr},
         {"barrier_os_3_wrap", barrier_prog<3, 3, true, 252>, 1, 2, 0.05, 0.05, 1, "3 phases on OS threads with the phase byte starting at 252: the phases cross the 8-bit wrap-around", nullptr, nullptr},
-        {"barrier_os_3", barrier_prog<3, 2, true>, 1, 2, 0.1, 0.1, 1, "barrier on plain OS threads (spin wait through sched_yield)", nullptr, nullptr},
+        {"barrier_os_3", barrier_prog<3, 2, true, 0, 3>, 1, 2, 0.1, 0.1, 1, "barrier on plain OS threads (spin wait through sched_yield)", nullptr, nullptr},
         {"latch_os_3", latch_prog<3, true>, 2, 3, 0.05, 0.05, 1, "latch on plain OS threads; all pthread ops are points", nullptr, nullptr},
-        {"barrier_2", barrier_prog<2, 2, false>, 2, 3, 0.15, 0.15, 1, "F-addr: barrier (phase, expected, expected_adjustment) + ticket array + task state words", nullptr, nullptr},
+        {"barrier_2", barrier_prog<2, 2, false, 0, 3>, 2, 3, 0.15, 0.15, 1, "F-addr: barrier (phase, expected, expected_adjustment) + ticket array + task state words", nullptr, nullptr},
         {"latch_3", latch_prog<3, false>, 2, 3, 0.2, 0.2, 1, "F-addr: latch (counter_, spinlock, cv queue, notified_) + task state words", nullptr, nullptr},
         {"barrier_3", barrier_prog<3, 2, false>, 1, 2, 0.2, 0.25, 1, "barrier with 3 participants on 2 workers (non power of two, more participants than workers)", nullptr, nullptr},
     };
